@@ -141,7 +141,8 @@ impl ConditionallySelectable for Fq {
             out[i] = u64::conditional_select(&a_limbs[i], &b_limbs[i], choice);
         }
         let bigint = BigInt::new(out);
-        Self(ArkworksFq::new(bigint))
+        // The limbs are already in Montgomery form: do not convert them again.
+        Self(ArkworksFq::new_unchecked(bigint))
     }
 }
 
